@@ -163,7 +163,7 @@ pub trait OperandHandler {
         } else if is_literal_or_literal_concat(operand) {
             // a constant addition ('a' + 'b') is not instrumented: it stays in place but it is still
             // an operand of the enclosing operation
-            arguments.push(ExprOrSpread::from(operand.clone()))
+            arguments.push(ident_provider.get_expr_or_spread(operand, ident_kind))
         }
     }
 }
